@@ -168,14 +168,17 @@ Atomic<'a, ItemType, BUFFER_SIZE, MAX_STREAMS> {
     #[inline(always)]
     fn send_derived(&self, arc_item: &Arc<ItemType>) -> bool {
         for stream_id in self.streams_manager.used_streams() {
+            #[cfg(feature = "verif")] crate::verif::point(crate::verif::MULTI_FANOUT_BEFORE_ENTRY);
             if *stream_id == u32::MAX {
                 break
             }
             let channel = unsafe { self.channels.get_unchecked(*stream_id as usize) };
             loop {
+                #[cfg(feature = "verif")] crate::verif::point(crate::verif::MULTI_FANOUT_BEFORE_PUBLISH);
                 match channel.publish_movable(arc_item.clone()) {
                     (Some(len_after_publishing), _) => {
                         if len_after_publishing.get() <= 2 {
+                            #[cfg(feature = "verif")] crate::verif::point(crate::verif::MULTI_FANOUT_BEFORE_WAKE);
                             self.streams_manager.wake_stream(*stream_id);
                         }
                         break;
